@@ -90,7 +90,12 @@ class StringContainsToConcat:
     """Replace ``str.contains`` by concatenation."""
 
     def filter(self, node):
-        return node.has_ident() and node.get_ident() == 'str.contains'
+        # The fresh variables are named after the first argument, which thus
+        # needs to be a symbol: otherwise the names are not valid symbols
+        # (e.g., "(str.++ x y)_prefix") and the output can not be parsed back.
+        return (node.has_ident() and node.get_ident() == 'str.contains'
+                and len(node) == 3 and node[1].is_leaf()
+                and not is_string_const(node[1]))
 
     def global_mutations(self, node, input_):
         var = node[1]
